@@ -91,7 +91,7 @@ def modelParts (g : Geo) (e : Emu) : List String :=
   | [] => ["bad-chain"]
   | win :: parents =>
     let chain := win :: parents
-    match draw true Fixes.current e win.w win.h g.focused with
+    match drawG true true Fixes.current e win.w win.h g.focused with
     | .error .oob => ["panic"]
     | .error .hang => ["hang"]
     | .ok (e', calls, cur) =>
